@@ -86,6 +86,10 @@ static void drv_step(struct cmd *c)
 	if (!strcmp(a, "part")) {
 		size_t n = drv_uint(c, "n", 0);
 		MPT_STRUCT(linepart) p;
+		if (!drv_has(c, "n")) {   /* offer a percentage of what remains (at least one value) */
+			size_t rem = dlen - pos, pct = drv_uint(c, "pct", 100);
+			n = (rem * pct + 99) / 100;
+		}
 		if (n > dlen - pos) { bad(c, "bad-offer"); return; }
 		memset(&p, 0xee, sizeof(p));
 		if (limit == 65535) {
@@ -103,6 +107,7 @@ static void drv_step(struct cmd *c)
 		emit_part(&p);
 		drv_dbg();
 		j_int("pos", (long long) pos);
+		j_int("n", (long long) n);
 		drv_end();
 		/* the caller advances by raw; never beyond the data */
 		pos = (p.raw > dlen - pos) ? dlen : pos + p.raw;
@@ -110,7 +115,7 @@ static void drv_step(struct cmd *c)
 	}
 	if (!strcmp(a, "join")) {
 		MPT_STRUCT(linepart) *r = 0;
-		if (nparts < 2) { bad(c, "bad-join"); return; }
+		if (nparts < 2) { bad(c, "none"); return; }
 		if (limit == 65535) {
 			r = mpt_linepart_join(&parts[nparts - 2], parts[nparts - 1]);
 		}
